@@ -66,17 +66,42 @@ class Raised(Exception):
         self.kind = kind
 
 
+def _join(*parts):
+    """os.path.join on strings that may contain opaque tokens (an absolute component restarts the path)."""
+    out = ""
+    for p in parts:
+        p = str(p)
+        if p.startswith("/") or not out:
+            out = p
+        elif out.endswith("/"):
+            out += p
+        else:
+            out += "/" + p
+    return out
+
+
+def _fspath(p):
+    if isinstance(p, Obj):
+        try:
+            return getattr(p, "__fspath__")
+        except AttributeError:
+            raise Raised("TypeError", "expected str, bytes or os.PathLike object")
+    if isinstance(p, str):
+        return p
+    raise Raised("TypeError", "expected str, bytes or os.PathLike object")
+
+
 PURE_BUILTINS = {
     "int": int, "str": str, "len": len, "set": set, "list": list, "dict": dict, "sorted": sorted, "enumerate": enumerate, "zip": zip,
     "range": range, "min": min, "max": max, "any": any, "all": all, "tuple": tuple, "frozenset": frozenset, "bool": bool, "float": float,
     "isinstance": None, "hasattr": None, "repr": repr, "abs": abs, "sum": sum, "reversed": reversed,
 }
 PURE_EXTERNAL = {
-    "os.path.join": lambda *a: "/".join(str(x) for x in a),
+    "os.path.join": lambda *a: _join(*a),
     "os.path.basename": os.path.basename,
     "os.path.splitext": os.path.splitext,
     "os.path.dirname": os.path.dirname,
-    "os.fspath": lambda p: p,
+    "os.fspath": lambda p: _fspath(p),
     "shlex.quote": lambda s: tok("quote:" + s) if "⟦" in s else shlex.quote(s),
     "re.sub": re.sub, "re.findall": re.findall, "re.search": re.search, "re.match": re.match, "re.fullmatch": re.fullmatch,
     "copy.copy": lambda x: x.copy() if hasattr(x, "copy") else x,
@@ -85,6 +110,8 @@ PURE_EXTERNAL = {
     "os.path.isabs": os.path.isabs,
     "os.path.normpath": lambda p: tok("norm:" + p) if "⟦" in p else os.path.normpath(p),
     "os.path.abspath": lambda p: tok("abs:" + p) if "⟦" in p or not os.path.isabs(p) else os.path.normpath(p),
+    "os.path.realpath": lambda p: tok("abs:" + p) if "⟦" in p or not os.path.isabs(p) else os.path.normpath(p),
+    "collections.defaultdict": None,
 }
 SAFE_METHODS = {
     str: {"format", "join", "strip", "rstrip", "lstrip", "split", "splitlines", "replace", "startswith", "endswith", "lower", "upper", "partition",
@@ -110,13 +137,13 @@ class PureInterp:
         self.steps = 0
 
     # ------------------------------------------------------------------ functions
-    def call(self, finfo, args=(), kwargs=None, self_obj=None, depth=0):
-        if depth > self.max_depth:
+    def call(self, finfo, args=(), kwargs=None, self_obj=None, depth=0, closure=None):
+        if depth > max(self.max_depth, 40 if closure is not None else 0):
             raise Unsupported("recursion depth")
         kwargs = dict(kwargs or {})
         a = finfo.node.args
         names = [x.arg for x in a.posonlyargs + a.args]
-        env = {}
+        env = dict(closure) if closure else {}
         pos = list(args)
         if finfo.cls is not None and names and names[0] in ("self", "cls") and "staticmethod" not in finfo.decorator_names():
             env[names[0]] = self_obj
@@ -153,6 +180,8 @@ class PureInterp:
             self.block(finfo.node.body, env, finfo.module, depth)
         except _Return as r:
             return r.value
+        except RecursionError:
+            raise Unsupported("unbounded recursion")
         return None
 
     # ------------------------------------------------------------------ statements
@@ -216,11 +245,20 @@ class PureInterp:
                     env.pop(t.id, None)
         elif isinstance(st, ast.With):
             # only event-recording hooks may stand for a context manager
+            opened = []
             for item in st.items:
                 v = self.eval(item.context_expr, env, module, depth)
+                opened.append(v)
                 if item.optional_vars is not None:
                     self.assign(item.optional_vars, v, env, module, depth)
-            self.block(st.body, env, module, depth)
+            try:
+                self.block(st.body, env, module, depth)
+            finally:
+                for v in reversed(opened):
+                    if isinstance(v, Obj) and v._name == "file":
+                        self.events.append(("close", getattr(v, "path", None)))
+                    elif isinstance(v, Obj) and "with_exit" in self.hooks:
+                        self.hooks["with_exit"](v)
         elif isinstance(st, ast.Raise):
             e = st.exc.func if isinstance(st.exc, ast.Call) else st.exc
             raise Raised((dotted(e) or "Exception").rsplit(".", 1)[-1], ast.unparse(st)[:80])
@@ -240,7 +278,12 @@ class PureInterp:
             finally:
                 pass
             self.block(st.finalbody, env, module, depth)
-        elif isinstance(st, (ast.FunctionDef, ast.Import, ast.ImportFrom, ast.Assert, ast.Global, ast.Nonlocal)):
+        elif isinstance(st, (ast.FunctionDef, ast.AsyncFunctionDef)):
+            fi = getattr(st, "_finfo", None)
+            if fi is not None:
+                env[st.name] = ("closure", fi, env)
+            return
+        elif isinstance(st, (ast.Import, ast.ImportFrom, ast.Assert, ast.Global, ast.Nonlocal)):
             return
         else:
             raise Unsupported(f"statement {type(st).__name__}")
@@ -509,6 +552,8 @@ class PureInterp:
             return self.call(f, args, kwargs, depth=depth + 1)
         if isinstance(f, tuple) and f and f[0] == "bound":
             return self.call(f[1], args, kwargs, self_obj=f[2], depth=depth + 1)
+        if isinstance(f, tuple) and f and f[0] == "closure":
+            return self.call(f[1], args, kwargs, depth=depth + 1, closure=f[2])
         if isinstance(f, tuple) and f and f[0] == "method":
             recv, name = f[1], f[2]
             for typ, names in SAFE_METHODS.items():
@@ -568,7 +613,9 @@ class PureInterp:
                 return None
             raise Unsupported(f"call to {name}")
         if isinstance(f, ClassInfo):
-            raise Unsupported(f"construction of {f.name}")
+            if "construct" in self.hooks:
+                return self.hooks["construct"](f, args, kwargs)
+            return Obj(f.name, _args=tuple(args), _kwargs=dict(kwargs), **{"__class__": f})
         if isinstance(f, tuple) and f and f[0] == "lambda":
             lam = f[1]
             e = dict(zip([a.arg for a in lam.args.args], args))
